@@ -86,10 +86,19 @@ def run_rules(F, rule_fns):
         bad = any(x.errors or [i for i in x.violations if i["key"] not in known_keys] for x in rs)
         if bad and os.environ.get("VERIF_FLAT") != "1" and os.environ.get("VERIF_NO_SECOND_VIEW") != "1":
             os.environ["VERIF_FLAT"] = "1"
+            from . import flatten
             try:
+                import inspect
+                import re as _re
+                mod = inspect.getmodule(fn)
+                src = inspect.getsource(mod) if mod is not None else ""
+                flatten.KEEP_NAMES = frozenset(_re.findall(r"[A-Za-z_][A-Za-z0-9_]{2,}", " ".join(_re.findall(r"\"([^\"\n]*)\"", src))))
+                flatten.KEEP_ID = getattr(mod, "__name__", "?")
                 rs2 = _run_rule(F, fn)
             finally:
                 os.environ["VERIF_FLAT"] = "0"
+                flatten.KEEP_NAMES = frozenset()
+                flatten.KEEP_ID = ""
             raw_errors = any(x.errors for x in rs)
             clean2 = not any(x.errors or [i for i in x.violations if i["key"] not in known_keys] for x in rs2)
             if raw_errors:
@@ -125,7 +134,7 @@ def _run_rule(F, fn):
         except KeyError as e:
             r = RuleResult(getattr(fn, "rid", fn.__name__), fn.__name__, "")
             r.error("missing anchor: %s" % e)
-        except (TypeError, IndexError, ValueError, AttributeError, RecursionError) as e:
+        except (TypeError, IndexError, ValueError, AttributeError, RecursionError, NameError, AssertionError, ZeroDivisionError) as e:
             # the rule met a shape of code it was not written for: it cannot decide (never a verdict, never a crash)
             import traceback
             tb = traceback.extract_tb(e.__traceback__)[-1]
